@@ -58,6 +58,8 @@ impl Vm {
     /// When applied to pairs, vectors and strings it recursively compares them.
     /// If applied to any other type, it compares with eqv?.
     pub fn equal(&self, left: &VCell, right: &VCell) -> Result<bool, Error> {
+        #[cfg(marwood_verif)]
+        let _verif_depth = crate::vm::verif::depth::enter("equal", "equal");
         let mut left = left.clone();
         let mut right = right.clone();
         if self.eqv(&left, &right)? {
@@ -84,6 +86,8 @@ impl Vm {
     }
 
     pub fn compare_pair(&self, mut left: VCell, mut right: VCell) -> Result<bool, Error> {
+        #[cfg(marwood_verif)]
+        let _verif_depth = crate::vm::verif::depth::enter("equal", "compare_pair");
         loop {
             if !left.is_pair() || !right.is_pair() {
                 return self.equal(&left, &right);
@@ -99,6 +103,8 @@ impl Vm {
     }
 
     pub fn compare_vector(&self, left: VCell, right: VCell) -> Result<bool, Error> {
+        #[cfg(marwood_verif)]
+        let _verif_depth = crate::vm::verif::depth::enter("equal", "compare_vector");
         let left = left.as_vector()?;
         let right = right.as_vector()?;
         if left.len() != right.len() {
